@@ -6,6 +6,10 @@ export GOFLAGS=-mod=mod GOPROXY=off
 unset GOTOOLCHAIN GOSUMDB || true
 mkdir -p build evidence replays
 python3 -c "import sys; sys.path.insert(0,'lib'); import runner; runner.ensure_makefile()"
+# the generated models (coq/Gen/*.v) always describe /repo as it is NOW: regenerate all of them before the first build
+# (each check regenerates the ones its property depends on again; a translator that refuses the source leaves the old file,
+#  the check of the property that needs it reports that)
+( cd harness && cp /repo/go.sum go.sum 2>/dev/null; timeout 900 go build -o ../build/verifgen ./gen && for g in batcher pool kafka saveproto; do ../build/verifgen $g -repo /repo -coq ../coq >/dev/null 2>&1 || echo "translator $g refuses the current source (reported by the checks that need it)"; done ) || true
 ( cd coq && timeout 3000 make -k -j"$(nproc)" >/dev/null 2>build.log || { tail -30 build.log; echo "coq build had failures (checks report them per property)"; } ; rm -f build.log )
 cp /repo/go.sum harness/go.sum 2>/dev/null || true
 for d in harness/c[0-9][0-9]; do
